@@ -71,8 +71,9 @@ func init() {
 		"lockCount": func(in *Interp, fn *ssa.Function, a []Value) Value {
 			return mkBV(64, uint64(in.lockCount[in.mutexCell(a[0])]))
 		},
-		"raceBegin": pRaceBegin,
-		"raceEnd":   pRaceEnd,
+		"illFormedIf": pIllFormedIf,
+		"raceBegin":   pRaceBegin,
+		"raceEnd":     pRaceEnd,
 		"concurrently": func(in *Interp, fn *ssa.Function, a []Value) Value {
 			if in.heldAny() {
 				in.pendingConc = append(in.pendingConc, a[0])
